@@ -163,6 +163,12 @@ func init() {
 		"strings.HasPrefix": func(fr *frame, args []value) value {
 			return strings.HasPrefix(args[0].(string), args[1].(string))
 		},
+		"strings.Contains": func(fr *frame, args []value) value {
+			return strings.Contains(args[0].(string), args[1].(string))
+		},
+		"strings.HasSuffix": func(fr *frame, args []value) value {
+			return strings.HasSuffix(args[0].(string), args[1].(string))
+		},
 		"strings.TrimSpace": func(fr *frame, args []value) value { return strings.TrimSpace(args[0].(string)) },
 		"strings.Split": func(fr *frame, args []value) value {
 			var out []value
